@@ -376,8 +376,8 @@ PROPS["C13"]["stages"].append(e3_stage("C13", 2, 3, "B1", "B1;B1,reuse=1", neste
 PROPS["C13"]["rule"] += "; crash stage: every journal index x {min, max, dir-ahead} images of short histories: after recovery completes the directory holds exactly the live files (no orphan table, stale MANIFEST or temp file)"
 
 PROPS["C20"]["stages"].append(dict(name="mc-backup", driver="mc", flavour="asan", args=["--prop", "C20"],
-                                   quick=["--scenarios", "D12,D13", "--bound", "2"], thorough=["--scenarios", "D13,D12", "--bound", "3"]))
-PROPS["C20"]["rule"] += "; concurrent stage: ldb_backup racing a batch writer, a flush and a memtable switch (scenarios D12, D13), every schedule within the deviation bound: the backup opens through an independent handle and equals the database at ONE point inside the backup call (linearizability oracle, every batch wholly in or out)"
+                                   quick=["--scenarios", "D12,D13,D20", "--bound", "2"], thorough=["--scenarios", "D13,D12,D20", "--bound", "3"]))
+PROPS["C20"]["rule"] += "; concurrent stage: ldb_backup racing a batch writer, a flush and a memtable switch (scenarios D12, D13), every schedule within the deviation bound: the backup opens through an independent handle and equals the database at ONE point inside the backup call (linearizability oracle, every batch wholly in or out); D20: two threads open and close the same second directory through handles of their own while another process probes the lock: never two handles at once, and no refused concurrent open makes the process lose the lock while a handle is open"
 PROPS["C20"]["assumptions"] = PROPS["C20"]["assumptions"] + E1_ASSUME[:3]
 
 # crash enumeration over INTERLEAVED journals (every explored schedule of a concurrent scenario)
